@@ -134,7 +134,7 @@ theorem step_fresh (sp : Spec) (w : World) (ev : Event) (h : Fresh w.tasks) : Fr
           · split
             · exact h
             · split
-              · exact h
+              · rw [(checkAffected_tasks sp _ _).1]; exact h
               · split
                 · exact h
                 · exact Fresh_setTask _ _ h (fun _ => rfl)
